@@ -135,9 +135,26 @@ class Session(object):
         self.server = stacking.TcpServerStack(name="server", ha=("127.0.0.1", 0), bufsize=sb,
                                               rxPkts=RecDeque(), txPkts=RecDeque())
         port = self.server.handler.ha[1]
+        # small kernel buffers (inherited by accepted sockets) in most cases, so that non-blocking sends of
+        # queued packets are really partial / would-block on loopback instead of being swallowed whole
+        import socket as _socket
+        small = (cfg["bufs"] % 3) != 0
+        if small:
+            try:
+                self.server.handler.ss.setsockopt(_socket.SOL_SOCKET, _socket.SO_SNDBUF, 2048)
+                self.server.handler.ss.setsockopt(_socket.SOL_SOCKET, _socket.SO_RCVBUF, 2048)
+            except (OSError, AttributeError):
+                pass
         for i in range(cfg["nclients"]):
             self.clients.append(stacking.TcpClientStack(name="client%d" % i, ha=("127.0.0.1", port), bufsize=cb,
                                                         rxPkts=RecDeque(), txPkts=RecDeque()))
+            if small:
+                try:
+                    cs = self.clients[-1].handler.cs
+                    cs.setsockopt(_socket.SOL_SOCKET, _socket.SO_SNDBUF, 2048)
+                    cs.setsockopt(_socket.SOL_SOCKET, _socket.SO_RCVBUF, 2048)
+                except (OSError, AttributeError):
+                    pass
         self.cas = []
         # per direction key ("s", i) = server -> client i ; ("c", i) = client i -> server
         self.queued = {}     # key -> list of payloads handed to transmit()/message(), with path
@@ -541,7 +558,7 @@ def work(shard, seed, tier):
     from vp.core.env import quiet_ioflo
     quiet_ioflo()
     acc = Acc()
-    n = 15 if tier == "quick" else 150
+    n = 45 if tier == "quick" else 150
 
     def execute(v):
         case = to_case(v)
